@@ -52,7 +52,14 @@ StepEv ==
        /\ x' = e.xn
   /\ l' = l + 1
 
-Next == StartChain \/ StepEv
+\* the caller repositions the chain (current_state is a public field): the chain is at the new state from now on
+SetEv ==
+  /\ l <= Len(Rec) /\ Rec[l].e = "set"
+  /\ Rec[l].wx > 0
+  /\ x' = Rec[l].x
+  /\ l' = l + 1
+
+Next == StartChain \/ StepEv \/ SetEv
 Spec == Init /\ [][Next]_vars
 
 \* C14 along the trace: the chain never sits on a zero-weight state
